@@ -1645,7 +1645,9 @@ impl Element {
     /// element.sort();
     /// ```
     pub fn sort(&self) {
-        self.0.write().sort();
+        // the order of the sub elements depends on the version of the containing file(s)
+        let version = self.min_version().unwrap_or(AutosarVersion::LATEST);
+        self.0.write().sort(version);
     }
 
     /// Serialize the element and all of its content to a string
